@@ -319,7 +319,7 @@ func writeEvidence(pc *propCheck, r *Report, seed int, wall float64, nviol int) 
 }
 
 var shapeQual = regexp.MustCompile(`([A-Za-z_φ][A-Za-z0-9_]*|…)\.`)
-var shapeLen = regexp.MustCompile(`len\((…|[.A-Za-z0-9_]+)\)`)
+var shapeLen = regexp.MustCompile(`len\((…|[.A-Za-z0-9_φ·]+)\)`)
 
 // stripOrdinal removes the "#n" ordinal of a construct and the parts of its rendering that
 // depend on how deep the expression happens to be nested (elided qualifiers).
